@@ -116,17 +116,16 @@ Lemma json_ok_obj imp kvs :
   json_ok imp (JObj kvs) = obj_ok kvs && forallb (fun kv => json_ok imp (snd kv)) kvs.
 Proof. reflexivity. Qed.
 Lemma obj_ok_old kvs :
-  obj_ok kvs = consistent_keys (map fst kvs)
-               && negb (existsb (fun kv => is_array_index (fst kv)) kvs)
+  obj_ok kvs = negb (existsb (fun kv => is_array_index (fst kv)) kvs)
                && nodupb (map fst kvs).
 Proof.
-  unfold obj_ok, obj_no_shape, shape_mixed_keys, shape_index_key, shape_dup_key.
+  unfold obj_ok, obj_no_shape, shape_index_key, shape_dup_key.
   rewrite !negb_involutive, andb_true_r. reflexivity.
 Qed.
 Lemma pm_ok_old p :
-  pm_ok p = Bool.eqb (find_invalid_segment p) (node_invalid_segments p)
-            && (find_invalid_segment p || url_plain p).
-Proof. unfold pm_ok, shape_segment_match, fragment_match. rewrite negb_involutive. reflexivity. Qed.
+  pm_ok p = Bool.eqb (find_invalid_subpath_segment p) (node_invalid_segments p)
+            && (find_invalid_subpath_segment p || url_plain p).
+Proof. unfold pm_ok, fragment_match, seg_differ_match. rewrite negb_involutive. reflexivity. Qed.
 
 Lemma url_plain_sep c : url_plain_char c = true -> is_sep c = Z.eqb ch_slash c.
 Proof.
@@ -157,8 +156,11 @@ Proof.
   apply negb_true_iff in Hne.
   induction (split_on (Z.eqb ch_slash) rest) as [|g r IH]; [reflexivity|].
   cbn [existsb forallb] in *. apply orb_false_iff in Hfi as [Hg Hr]. apply orb_false_iff in Hne as [Hg0 Hr0].
-  rewrite (IH Hr Hr0), andb_true_r. unfold ordinary_seg. unfold bad_segment in Hg.
-  apply orb_false_iff in Hg as [Hg _]. apply orb_false_iff in Hg as [Hg1 Hg2].
+  rewrite (IH Hr Hr0), andb_true_r. unfold ordinary_seg.
+  assert (Hg1 : str_eqb g [ch_dot] = false).
+  { destruct (str_eqb g [ch_dot]) eqn:E; [|reflexivity]. apply str_eqb_eq in E. subst g. discriminate Hg. }
+  assert (Hg2 : str_eqb g dotdot = false).
+  { destruct (str_eqb g dotdot) eqn:E; [|reflexivity]. apply str_eqb_eq in E. subst g. discriminate Hg. }
   rewrite Hg0, Hg1, Hg2. reflexivity.
 Qed.
 
@@ -174,8 +176,8 @@ Definition target_ok' (imp : bool) (t : str) : bool :=
 
 Lemma target_ok_old imp t : target_ok imp t = true -> target_ok' imp t = true.
 Proof.
-  unfold target_ok, target_no_shape, shape_segment_target, shape_url_target, fragment_target, target_ok'.
-  intros H. apply andb_true_iff in H as [H Hfrag]. apply andb_true_iff in H as [Hseg Hurl].
+  unfold target_ok, target_no_shape, shape_url_target, fragment_target, seg_differ_target, target_ok'.
+  intros H. apply andb_true_iff in H as [Hurl Hfrag]. apply andb_true_iff in Hfrag as [Hseg Hfrag].
   destruct (prefixb dot_slash t) eqn:Epre; cbn [andb negb] in *.
   - rewrite negb_involutive in Hseg. rewrite Hseg. cbn [andb].
     destruct (find_invalid_segment t) eqn:Efi; [reflexivity|]. cbn [negb orb] in *.
@@ -207,10 +209,10 @@ Proof.
     rewrite Hc1.
     destruct pm as [p|]; cbn [sub_of pat_of pm_ok_opt] in *.
     + rewrite pm_ok_old in Hp. apply andb_true_iff in Hp as [Hps Hpp]. apply Bool.eqb_prop in Hps.
-      rewrite <- Hps. destruct (find_invalid_segment p) eqn:Efp; [reflexivity|].
+      rewrite <- Hps. destruct (find_invalid_subpath_segment p) eqn:Efp; [reflexivity|].
       cbn [orb] in Hpp. rewrite Hpp. cbn [negb].
       match goal with |- proj (_, if ?c then _ else _) = _ => destruct c end; reflexivity.
-    + change (find_invalid_segment []) with false. cbn iota.
+    + change (find_invalid_subpath_segment []) with false. cbn iota.
       unfold path_join2. rewrite Hc2. reflexivity.
   - (* bare / invalid target *)
     destruct imp; cbn [negb andb orb] in *.
@@ -265,9 +267,9 @@ Proof.
     rewrite (arr_loop_eq _ (fun v => target_resolve_spec v pm imp conds)); [reflexivity|].
     apply forallb_Forall in Hok. rewrite Forall_forall in *. intros v Hv. apply IH; auto.
   - rewrite json_ok_obj in Hok. apply andb_true_iff in Hok as [Hobj Hvals].
-    rewrite obj_ok_old in Hobj. apply andb_true_iff in Hobj as [Hobj Hnd].
-    apply andb_true_iff in Hobj as [Hcons Hidx]. apply negb_true_iff in Hidx.
-    cbn [parse]. rewrite Hcons. cbn [target_resolve target_resolve_spec]. rewrite Hidx.
+    rewrite obj_ok_old in Hobj. apply andb_true_iff in Hobj as [Hidx Hnd].
+    apply negb_true_iff in Hidx.
+    cbn [parse]. cbn [target_resolve target_resolve_spec]. rewrite Hidx.
     apply obj_loop_eq.
     + match goal with |- proj (if ?c then _ else _) = _ => destruct c end; reflexivity.
     + apply forallb_Forall in Hvals. rewrite Forall_forall in *. intros kv Hkv. apply IH; auto.
@@ -395,9 +397,8 @@ Lemma key_ok_old mk k :
   /\ pm_ok (pattern_match_of mk k) = true.
 Proof.
   unfold key_ok, key_documented, key_no_shape, key_fragment, shape_pattern_base, pm_ok.
-  intros H. apply andb_true_iff in H as [H Hf]. apply andb_true_iff in H as [Hd Hs].
-  apply andb_true_iff in Hs as [Hb Hm]. apply negb_true_iff in Hb.
-  repeat split; auto. rewrite Hm, Hf. reflexivity.
+  intros H. apply andb_true_iff in H as [H Hf]. apply andb_true_iff in H as [Hd Hb].
+  apply negb_true_iff in Hb. repeat split; auto.
 Qed.
 
 (* ---- keys with several "*" never match a star-free match key ---- *)
@@ -536,8 +537,7 @@ Lemma imports_exports_resolve_eq mk kvs imp conds :
   = imports_exports_resolve_spec mk kvs imp conds.
 Proof.
   intros Hmk Hok Hkeys. rewrite json_ok_obj in Hok. apply andb_true_iff in Hok as [Hobj Hvals].
-  rewrite obj_ok_old in Hobj. apply andb_true_iff in Hobj as [Hobj _]. apply andb_true_iff in Hobj as [Hcons _].
-  cbn [parse]. rewrite Hcons. fold pp.
+  cbn [parse]. fold pp.
   unfold imports_exports_resolve, imports_exports_resolve_spec. cbn [map_data expansion_keys].
   unfold match_key_ok in Hmk. apply andb_true_iff in Hmk as [Hsl Hst].
   pose proof Hst as Hst'. unfold shape_star_specifier in Hst'. rewrite Hsl, Hst'. cbn [andb].
@@ -696,9 +696,22 @@ Proof.
   destruct (value_for_key md [ch_dot]) as [d|]; [destruct d|]; reflexivity.
 Qed.
 
+Lemma inconsistent_mixed b (r : list (str * json)) :
+  forallb (fun k => Bool.eqb (starts_with_dot k) b) (map fst r) = false ->
+  existsb (fun x : bool => x) (b :: map (fun kv => starts_with_dot (fst kv)) r)
+  && existsb negb (b :: map (fun kv => starts_with_dot (fst kv)) r) = true.
+Proof.
+  induction r as [|[k v] r IH]; [discriminate|]. cbn [map fst forallb existsb].
+  destruct (Bool.eqb (starts_with_dot k) b) eqn:E.
+  - cbn [andb]. intros H. specialize (IH H). cbn [existsb] in IH.
+    apply Bool.eqb_prop in E. rewrite E.
+    destruct b; cbn [negb orb] in *; exact IH.
+  - intros _. destruct (starts_with_dot k), b; try discriminate; cbn; rewrite ?orb_true_r; reflexivity.
+Qed.
+
 Lemma exports_resolve_eq_partial_all j sub conds :
   in_scope_exports j sub = true ->
-  outcome_of_model (exports_resolve slash_s sub (parse j) conds)
+  outcome_of_model (exports_resolve slash_s sub (parse_top j) conds)
   = coarse (node_exports_resolve j sub conds).
 Proof.
   unfold in_scope_exports. intros H. apply andb_true_iff in H as [H Hkeys].
@@ -710,27 +723,30 @@ Proof.
   pose proof (target_resolve_eq false conds None eq_refl) as TR. cbn [sub_of pat_of] in TR.
   destruct j as [| t | l | kvs |].
   - (* null *) cbn. destruct (str_eqb sub [ch_dot]); reflexivity.
-  - (* string *) cbn [parse exports_resolve map existsb andb].
+  - (* string *) cbn [parse_top parse exports_resolve map existsb andb].
     destruct (str_eqb sub [ch_dot]); [|reflexivity].
     rewrite <- (TR (JStr t) Hok). apply finish_eq. reflexivity.
-  - (* array *) cbn [parse exports_resolve map existsb andb].
+  - (* array *) cbn [parse_top parse exports_resolve map existsb andb].
     destruct (str_eqb sub [ch_dot]); [|reflexivity].
     rewrite <- (TR (JArr l) Hok). apply finish_eq. reflexivity.
   - (* object *)
     pose proof Hok as Hok'. rewrite json_ok_obj in Hok'. apply andb_true_iff in Hok' as [Hobj Hvals].
-    rewrite obj_ok_old in Hobj. apply andb_true_iff in Hobj as [Hobj _]. apply andb_true_iff in Hobj as [Hcons _].
     apply forallb_Forall in Hvals.
     destruct kvs as [|[k0 v0] r].
     + cbn. destruct (str_eqb sub [ch_dot]); [reflexivity|].
       unfold imports_exports_resolve_spec. cbn. destruct (negb (has_byte ch_star sub)); reflexivity.
     + set (kvs := (k0, v0) :: r) in *.
+      unfold parse_top. destruct (consistent_keys (map fst kvs)) eqn:Hcons.
+      2:{ (* mixed keys at the top level: both sides refuse *)
+          unfold kvs in Hcons. cbn [map fst consistent_keys] in Hcons.
+          unfold kvs. cbn [map fst]. rewrite (inconsistent_mixed _ r Hcons). reflexivity. }
       assert (Hdk : map (fun kv => starts_with_dot (fst kv)) kvs
                     = starts_with_dot k0 :: repeat (starts_with_dot k0) (length r)).
       { unfold kvs. cbn [map fst]. f_equal. apply same_dot_repeat. exact Hcons. }
       rewrite Hdk. rewrite existsb_id_repeat, existsb_negb_repeat, forallb_id_repeat.
       assert (Hp : parse (JObj kvs) = PObj (map pp kvs)
                      (isort_by less (filter (fun e => is_expansion_key (fst e)) (map pp kvs)))).
-      { cbn [parse]. rewrite Hcons. reflexivity. }
+      { reflexivity. }
       assert (Hksd : keys_start_with_dot (parse (JObj kvs)) = starts_with_dot k0).
       { rewrite Hp. reflexivity. }
       rewrite Hp. rewrite exports_resolve_obj. cbv zeta. rewrite <- Hp. rewrite Hksd.
@@ -760,23 +776,25 @@ Proof. reflexivity. Qed.
 
 Lemma imports_resolve_eq_partial_all j spec conds :
   in_scope_imports j spec = true ->
-  outcome_of_model (imports_resolve spec (parse j) conds)
+  outcome_of_model (imports_resolve spec (parse_top j) conds)
   = coarse (node_imports_resolve spec j conds).
 Proof.
   unfold in_scope_imports. intros H. apply andb_true_iff in H as [H Hkeys].
-  apply andb_true_iff in H as [H Hhs0]. apply andb_true_iff in H as [Hmk Hok].
+  apply andb_true_iff in H as [H Hmix]. apply andb_true_iff in H as [H Hhs0].
+  apply andb_true_iff in H as [Hmk Hok].
   apply negb_true_iff in Hhs0. unfold shape_hash_slash in Hhs0. apply orb_false_iff in Hhs0 as [Hh Hhs].
+  apply negb_true_iff in Hmix.
   unfold node_imports_resolve. rewrite (norm_id true j Hok).
   assert (Hsl : ends_with_slash spec = false).
   { unfold match_key_ok in Hmk. apply andb_true_iff in Hmk as [Hs _]. apply negb_true_iff in Hs. exact Hs. }
   rewrite Hsl. unfold imports_resolve_spec.
   change (s_ "#") with [ch_hash]. change (s_ "#/") with [ch_hash; ch_slash]. rewrite Hh, Hhs. cbn [orb].
   destruct j as [| t | l | kvs |]; try reflexivity.
-  pose proof Hok as Hok'. rewrite json_ok_obj in Hok'. apply andb_true_iff in Hok' as [Hobj _].
-  rewrite obj_ok_old in Hobj. apply andb_true_iff in Hobj as [Hobj _]. apply andb_true_iff in Hobj as [Hcons _].
+  cbn [shape_imports_top_mixed] in Hmix. apply negb_false_iff in Hmix.
+  unfold parse_top. rewrite Hmix.
   assert (Hp : parse (JObj kvs) = PObj (map pp kvs)
                  (isort_by less (filter (fun e => is_expansion_key (fst e)) (map pp kvs)))).
-  { cbn [parse]. rewrite Hcons. reflexivity. }
+  { reflexivity. }
   rewrite Hp, imports_resolve_obj. cbv zeta. rewrite <- Hp.
   rewrite <- (imports_exports_resolve_eq spec kvs true conds Hmk Hok Hkeys).
   apply finish_eq. reflexivity.
@@ -795,9 +813,9 @@ Qed.
 (* ---- witnesses: outside the scope the faithful model and Node differ ---- *)
 Definition cN := [s_ "node"; s_ "import"].
 Definition model_exports (j : json) (sub : str) : outcome :=
-  outcome_of_model (exports_resolve slash_s sub (parse j) cN).
+  outcome_of_model (exports_resolve slash_s sub (parse_top j) cN).
 Definition model_imports (j : json) (sp : str) : outcome :=
-  outcome_of_model (imports_resolve sp (parse j) cN).
+  outcome_of_model (imports_resolve sp (parse_top j) cN).
 Definition spec_exports (j : json) (sub : str) : outcome := coarse (node_exports_resolve j sub cN).
 Definition spec_imports (j : json) (sp : str) : outcome := coarse (node_imports_resolve sp j cN).
 
@@ -823,28 +841,36 @@ Lemma refuted_pattern_base_other_file :
   model_exports w_pattern_base2 (s_ "./foo") = OResolved (s_ "/lib/foo.js")
   /\ spec_exports w_pattern_base2 (s_ "./foo") = OResolved (s_ "/x/o.js").
 Proof. split; vm_compute; reflexivity. Qed.
-Lemma refuted_segment_case :
-  model_exports w_upper (s_ "./x") = OResolved (s_ "/lib/NODE_MODULES/x.js")
+(* D2 (repaired in /repo by e3ac7b5): the former witnesses now agree *)
+Lemma fixed_segment_case :
+  model_exports w_upper (s_ "./x") = ORefused ENotExported
   /\ spec_exports w_upper (s_ "./x") = ORefused ENotExported.
 Proof. split; vm_compute; reflexivity. Qed.
-Lemma refuted_segment_percent :
-  model_exports w_pct (s_ "./x") = OResolved (s_ "/lib/%2e%2e/x.js")
-  /\ handle_post_conditions (exports_resolve slash_s (s_ "./x") (parse w_pct) cN) = (s_ "/lib/../x.js", SExact)
+Lemma fixed_segment_percent :
+  model_exports w_pct (s_ "./x") = ORefused ENotExported
   /\ spec_exports w_pct (s_ "./x") = ORefused ENotExported.
-Proof. repeat split; vm_compute; reflexivity. Qed.
-Lemma refuted_segment_first :
-  model_exports w_star_all (s_ "./../secret.js") = OResolved (s_ "/lib/../secret.js")
+Proof. split; vm_compute; reflexivity. Qed.
+Lemma fixed_segment_first :
+  model_exports w_star_all (s_ "./../secret.js") = ORefused ENotExported
   /\ spec_exports w_star_all (s_ "./../secret.js") = ORefused ENotExported
-  /\ model_exports w_star_all (s_ "./node_modules/s.js") = OResolved (s_ "/lib/node_modules/s.js")
+  /\ model_exports w_star_all (s_ "./node_modules/s.js") = ORefused ENotExported
   /\ spec_exports w_star_all (s_ "./node_modules/s.js") = ORefused ENotExported.
 Proof. repeat split; vm_compute; reflexivity. Qed.
 Lemma refuted_duplicate_key :
   model_exports w_dup (s_ "./a") = OResolved (s_ "/x.js")
   /\ spec_exports w_dup (s_ "./a") = OResolved (s_ "/y.js").
 Proof. split; vm_compute; reflexivity. Qed.
-Lemma refuted_nested_mixed_keys :
-  model_exports w_mixed (s_ "./a") = ORefused ENotExported
-  /\ spec_exports w_mixed (s_ "./a") = OResolved (s_ "/x.js").
+(* D4 (repaired in /repo by 4e82ea6): nested mixed keys now agree; what is left
+   is the top-level object of "imports" *)
+Lemma fixed_nested_mixed_keys :
+  model_exports w_mixed (s_ "./a") = OResolved (s_ "/x.js")
+  /\ spec_exports w_mixed (s_ "./a") = OResolved (s_ "/x.js")
+  /\ in_scope_exports w_mixed (s_ "./a") = true.
+Proof. repeat split; vm_compute; reflexivity. Qed.
+Definition w_imports_mixed : json := JObj [(s_ "#a", JStr (s_ "./a.js")); (s_ "./b", JStr (s_ "./b.js"))].
+Lemma refuted_imports_top_mixed :
+  model_imports w_imports_mixed (s_ "#a") = ORefused ENotExported
+  /\ spec_imports w_imports_mixed (s_ "#a") = OResolved (s_ "/a.js").
 Proof. split; vm_compute; reflexivity. Qed.
 Lemma refuted_index_key :
   model_exports w_index (s_ "./a") = OResolved (s_ "/y.js")
@@ -867,7 +893,7 @@ Definition documented_scope (j : json) (sub : str) : bool :=
 Lemma exports_resolve_eq_refuted_all :
   exists j sub conds,
     documented_scope j sub = true /\
-    outcome_of_model (exports_resolve slash_s sub (parse j) conds)
+    outcome_of_model (exports_resolve slash_s sub (parse_top j) conds)
     <> coarse (node_exports_resolve j sub conds).
 Proof.
   exists w_pattern_base, (s_ "./foo"), cN. split; [reflexivity|].
@@ -877,7 +903,7 @@ Qed.
 Lemma imports_resolve_eq_refuted_all :
   exists j sp conds,
     documented_scope j sp = true /\
-    outcome_of_model (imports_resolve sp (parse j) conds)
+    outcome_of_model (imports_resolve sp (parse_top j) conds)
     <> coarse (node_imports_resolve sp j conds).
 Proof.
   exists w_hash_slash, (s_ "#/a"), cN. split; [reflexivity|].
@@ -940,6 +966,7 @@ Proof.
   unfold in_scope_imports, documented_ok, fragment_ok, no_refuted_shape, match_key_ok.
   rewrite json_ok_split, top_keys_split. cbn [andb].
   destruct (negb (ends_with_slash mk)), (negb (shape_star_specifier mk)), (negb (shape_hash_slash mk)),
+    (negb (shape_imports_top_mixed j)),
     (json_all (target_no_shape true) obj_no_shape j), (json_all fragment_target (fun _ => true) j),
     (top_keys key_documented j), (top_keys (key_no_shape mk) j), (top_keys (key_fragment mk) j); reflexivity.
 Qed.
